@@ -5,14 +5,18 @@ import (
 	"context"
 	"time"
 
+	"github.com/form3tech-oss/f1/v2/internal/metrics"
 	"github.com/form3tech-oss/f1/v2/internal/options"
 	"github.com/form3tech-oss/f1/v2/internal/progress"
 	"github.com/form3tech-oss/f1/v2/internal/raterun"
 	"github.com/form3tech-oss/f1/v2/internal/run/views"
 	"github.com/form3tech-oss/f1/v2/internal/trigger/api"
+	"github.com/form3tech-oss/f1/v2/internal/trigger/users"
 	"github.com/form3tech-oss/f1/v2/internal/ui"
 	"github.com/form3tech-oss/f1/v2/internal/workers"
 	zz "github.com/form3tech-oss/f1/v2/internal/zzverif"
+	"github.com/form3tech-oss/f1/v2/pkg/f1/scenarios"
+	f1testing "github.com/form3tech-oss/f1/v2/pkg/f1/testing"
 )
 
 var c05TriggerCalls int
@@ -66,4 +70,89 @@ func VerifC05_TriggeringPhase() {
 		zz.GhostInt("ctx.timeout", 0, 0) == int(want-int64(10*time.Millisecond)))
 	zz.Assert("C05.phase.trigger_context_cancelled_on_return", seenCtx != nil && seenCtx.Err() != nil)
 	zz.Assert("C05.phase.test_duration_recorded", r.result.TestDuration >= 0)
+}
+
+// VerifC05_UsersModeBoundedWait: the real Run.run with the real USERS trigger (users.NewWorker, one user, real
+// continuous pool) and an iteration that does not finish until after the run has returned (it waits for a release the
+// harness gives only once run is back: "iteration blocking pattern"), ARBITRARY max-duration, caller cancellation at
+// any moment, the completion timer free to fire: run must return on every schedule - the wait for in-flight
+// iterations is bounded by the completion timeout in users mode as in every other mode. Decided by the deadlock
+// query: a reachable state in which the run is still waiting and nothing can move is a violation.
+//
+//verif:conc
+//verif:unroll 2
+//verif:timeout 300
+//verif:replace (*$M/internal/raterun.Runner).Restart c05RestartFn
+//verif:deadlock 1
+func VerifC05_UsersModeBoundedWait() {
+	md := zz.Int64("maxDuration")
+	zz.Assume(md > int64(20*time.Millisecond))
+	zz.Assume(md < 1<<50)
+	release := make(chan struct{})
+	sc := &scenarios.Scenario{Name: "scn"}
+	sc.RunFn = func(*f1testing.T) {
+		zz.Event("iteration.begin")
+		<-release
+	}
+	as := workers.NewActiveScenario(sc, &metrics.Metrics{}, &progress.Stats{}, nil, nil)
+	trig := &api.Trigger{Trigger: users.NewWorker(1)}
+	opts := options.RunOptions{Scenario: "scn", MaxDuration: time.Duration(md), Concurrency: 1}
+	vw := &views.Views{}
+	r := &Run{options: opts, trigger: trig, views: vw, result: NewResult(opts, vw, &progress.Stats{}), output: &ui.Output{},
+		activeScenario: as, progressRunner: &raterun.Runner{}, waitForCompletionTimeout: 10 * time.Second}
+	ctx, cancel := context.WithCancel(context.Background())
+	go func() {
+		if zz.Bool("callerCancels") {
+			cancel()
+		}
+	}()
+	r.run(ctx)
+	zz.Event("run.returned")
+	zz.Cover("C05.users.run_returned")
+	// (no witness "returned with an iteration in flight": on the unchanged tree that is unreachable - it is exactly
+	// what the recorded finding says; the deadlock query above is the obligation)
+	close(release)
+	cancel()
+}
+
+// VerifC05_RateModeBoundedWaitAfterLimit: the real Run.run with the real rate-mode trigger (api.NewIterationWorker,
+// real trigger pool, two workers), max-iterations 1 and a first tick requesting two iterations: one worker starts
+// iteration 1, which does not finish until after the run has returned; the other is refused by the limit and stops
+// the pool, so the trigger returns with "max iterations reached" while an iteration is still in flight. ARBITRARY
+// max-duration, caller cancellation at any moment: run returns on every schedule (the deadline or the cancellation
+// leads to the wait bounded by the completion timeout) - decided by the deadlock query.
+//
+//verif:conc
+//verif:unroll 2
+//verif:timeout 300
+//verif:horizon 3600000000000
+//verif:replace (*$M/internal/raterun.Runner).Restart c05RestartFn
+//verif:deadlock 1
+func VerifC05_RateModeBoundedWaitAfterLimit() {
+	md := zz.Int64("maxDuration")
+	zz.Assume(md > int64(20*time.Millisecond))
+	zz.Assume(md < int64(30*time.Minute))
+	release := make(chan struct{})
+	sc := &scenarios.Scenario{Name: "scn"}
+	sc.RunFn = func(*f1testing.T) {
+		zz.Event("iteration.begin", zz.ThreadID())
+		<-release
+	}
+	as := workers.NewActiveScenario(sc, &metrics.Metrics{}, &progress.Stats{}, nil, nil)
+	trig := &api.Trigger{Trigger: api.NewIterationWorker(time.Hour, func(time.Time) int { return 2 })}
+	opts := options.RunOptions{Scenario: "scn", MaxDuration: time.Duration(md), Concurrency: 2, MaxIterations: 1}
+	vw := &views.Views{}
+	r := &Run{options: opts, trigger: trig, views: vw, result: NewResult(opts, vw, &progress.Stats{}), output: &ui.Output{},
+		activeScenario: as, progressRunner: &raterun.Runner{}, waitForCompletionTimeout: 10 * time.Second}
+	ctx, cancel := context.WithCancel(context.Background())
+	go func() {
+		if zz.Bool("callerCancels") {
+			cancel()
+		}
+	}()
+	r.run(ctx)
+	zz.Event("run.returned")
+	zz.Cover("C05.ratelimit.run_returned")
+	close(release)
+	cancel()
 }
